@@ -177,6 +177,8 @@ def K():
                 _tl.actor = prev
 
         def do(self):
+            if self._gates:
+                self._gates.park(0, "pre")       # preempted between the loop's flag check and the first instruction of do()
             self.ncalls += 1
             out = self._script.pop(0) if self._script else (self._outcome() if self._outcome else "did")
             self._rec.log(e="do", out=out)
@@ -353,7 +355,7 @@ def run_gated(sched, prestarted):
     def matches(t, want):
         st = gates.status[t]
         lt = _loop_thread(r)
-        if want in ("do", "sleep", "wkE", "wkX", "wtE", "idle"):
+        if want in ("pre", "do", "sleep", "wkE", "wkX", "wtE", "idle"):
             return st == want
         if want == "dead":
             return t == 0 and st == "run" and (lt is None or (lt.ident is not None and not lt.is_alive()))
@@ -475,6 +477,10 @@ def run_free(seed):
     invoke(r, rec, 3, "wait")
     _tl.actor = None
     return rec.ev
+
+
+def _calls_chunk(seqs):
+    return [run_calls(list(c)) for c in seqs]
 
 
 def _free_chunk(seeds):
@@ -698,7 +704,7 @@ def judge(ctx, traces, cases, family, what):
     """Property clauses on recorded traces, evaluated by TLC (Trace_Runnable)."""
     if not traces:
         return 0
-    viols, _ = tc.validate(ctx, "Trace_Runnable", "Trace_Runnable.cfg", traces, what, min_batch=3000)
+    viols, _ = tc.validate(ctx, "Trace_Runnable", "Trace_Runnable.cfg", traces, what, min_batch=12000)
     seen = set()
     for ti, line, clause in sorted(viols):
         if (ti, clause) in seen:
@@ -706,7 +712,7 @@ def judge(ctx, traces, cases, family, what):
         seen.add((ti, clause))
         base, tag = split_clause(clause)
         ev = traces[ti][line - 1]
-        ctx.report({"clause": base, "window": tag, "family": family},
+        ctx.report({"clause": base, "window": tag, "family": family if isinstance(family, str) else family[ti]},
                    {"line": line, "event": ev, "trace": traces[ti][max(0, line - 12):line + 2], "case": cases[ti]},
                    replay=cases[ti])
     return len(seen)
@@ -720,7 +726,7 @@ def conform(ctx, traces, cases, variant, what):
                      open(os.path.join(os.path.dirname(tc.__file__), "..", "spec", "Trace_RunnableConc.cfg")).read()
                      .replace("FixedStopOrder = 0", "FixedStopOrder = %d" % variant))
     viols, done = tc.validate(ctx, "Trace_RunnableConc", cfg, traces, what, dfs=True, must_complete=False,
-                              min_batch=150, timeout=3000)
+                              min_batch=400, timeout=3000)
     ok = {ti for ti, _, c in viols if c == "Completed"}
     ctx.extra["conformance_checked"] = ctx.extra.get("conformance_checked", 0) + len(traces)
     ctx.extra["conformance_explained"] = ctx.extra.get("conformance_explained", 0) + len(ok)
@@ -733,7 +739,7 @@ def conform(ctx, traces, cases, variant, what):
 def judge_notifier(ctx, traces, cases, what):
     if not traces:
         return
-    viols, _ = tc.validate(ctx, "Trace_Notifier", "Trace_Notifier.cfg", traces, what, min_batch=3000)
+    viols, _ = tc.validate(ctx, "Trace_Notifier", "Trace_Notifier.cfg", traces, what, min_batch=12000)
     seen = set()
     for ti, line, clause in sorted(viols):
         if (ti, clause) in seen:
@@ -774,10 +780,12 @@ def _run(ctx, pool):
         "%d x %d parameter triples, run(until=...) on the real class, non-trivial = contains a failure; "
         "gated: schedules enumerated by TLC from Gen_Runnable (release/call tokens at the gates do, sleep, wake entry, wake "
         "exit, wait entry), non-trivial = a controller token is placed while the loop thread exists; "
+        "calls: every sequence of <= %d calls of one controller over {start, stop(T,wait), stop(F,wait), stop(T,nowait), wait} "
+        "against a freely running loop, non-trivial = something is called after a start(); "
         "free: real threads with seeded jitter, non-trivial = a controller call is logged while the loop is between a do() "
         "and its finally block; notifier: every history of Gen_Notifier, non-trivial = >= 2 notifications and a handler "
         "failure or a stop; distinct = distinct case (sequence x parameters / schedule / recorded event order / history)"
-        % (4 if quick else 6, len(GRID)))
+        % (4 if quick else 6, len(GRID), 3 if quick else 4))
     ctx.assume(
         "backoff law checked where the formula min(max, min*mult^(k-1)) is well defined: min >= 0, max >= 0, mult >= 1 "
         "(for mult < 1 the code keeps max(in_backoff*mult, min) = min, the formula would shrink); a wait of 0 (min = 0 or "
@@ -804,13 +812,26 @@ def _run(ctx, pool):
     nproc = pool._processes
 
     # ---- exemplars of listed findings ------------------------------------------------------------
+    A = {"tr": [], "cases": [], "fam": [], "conf": []}        # every Runnable trace of this run; judged in one batch
+
+    def add(trs, cs, family, conf=True):
+        base = len(A["tr"])
+        A["tr"] += trs
+        A["cases"] += cs
+        A["fam"] += [family] * len(trs)
+        if conf is True:
+            A["conf"] += range(base, base + len(trs))
+        elif conf:
+            A["conf"] += [base + i for i in conf]
+    NT, NC = [], []
     for f in ctx.findings:
         if f.get("exemplar"):
             kind, tr = exec_case(f["exemplar"])
             if kind == "runnable":
-                judge(ctx, [tr], [f["exemplar"]], "exemplar", "exemplar " + f["id"])
+                add([tr], [f["exemplar"]], "exemplar")
             else:
-                judge_notifier(ctx, [tr], [f["exemplar"]], "exemplar " + f["id"])
+                NT.append(tr)
+                NC.append(f["exemplar"])
 
     # ---- backoff law -----------------------------------------------------------------------------
     maxlen = 4 if quick else 6
@@ -821,21 +842,19 @@ def _run(ctx, pool):
     ctx.count(evaluations=len(traces), nontrivial=sum(1 for c in cases if set(c["seq"]) & {"backoff", "exc", "base"}))
     ctx.extra["backoff_traces"] = len(traces)
     ctx.sample({"backoff": cases[len(cases) // 3], "trace": traces[len(cases) // 3]})
-    judge(ctx, traces, cases, "backoff", "backoff sequences len<=%d x %d triples" % (maxlen, len(GRID)))
     rng = random.Random(ctx.seed)
-    idx = sorted(rng.sample(range(len(traces)), min(len(traces), 240 if quick else 2000)))
-    conform(ctx, [traces[i] for i in idx], [cases[i] for i in idx], variant, "backoff slice")
+    add(traces, cases, "backoff", conf=sorted(rng.sample(range(len(traces)), min(len(traces), 240 if quick else 2000))))
 
     # ---- gated schedules -------------------------------------------------------------------------
     fam = []
     ga = gen_schedules(ctx, "GA", ctls="{1}", kinds='{"stopTW", "stopTN", "stopFW", "wake", "wait"}',
-                       outs='{"did", "exc", "sstopF"}', calls=2, maxdo=1, pre=True, maxtok=6 if quick else 7)
+                       outs='{"did", "exc", "sstopF"}', calls=2, maxdo=1, pre=True, maxtok=7 if quick else 8)
     fam.append(("GA", ga, True))
     gc = gen_schedules(ctx, "GC", ctls="{1}", kinds='{"start", "stopTW", "stopFW", "stopTN", "wait"}', outs='{"did"}',
-                       calls=3 if quick else 4, maxdo=1, pre=False, maxtok=6 if quick else 8)
+                       calls=3 if quick else 4, maxdo=1, pre=False, maxtok=7 if quick else 9)
     fam.append(("GC", gc, False))
     gbc = dict(ctls="{1, 2}", kinds='{"start", "stopTW", "stopTN", "stopFW", "wake", "wait"}', outs='{"did", "exc", "sstopF"}',
-               calls=2, maxdo=2, pre=True, maxtok=6)
+               calls=2, maxdo=2, pre=True, maxtok=7)
     gb = gen_schedules(ctx, "GB", simulate=120 if quick else None, **gbc)
     fam.append(("GB", gb, True))
     ctx.extra["gated_families"] = {n: len(s) for n, s, _ in fam}
@@ -861,8 +880,17 @@ def _run(ctx, pool):
     ctx.count(evaluations=len(gtr), nontrivial=len({json.dumps(c["schedule"], sort_keys=True) for c in gcases
                                                     if gated_nontrivial(c["schedule"])}))
     ctx.sample({"gated": gcases[len(gcases) // 2], "trace": gtr[len(gcases) // 2]})
-    judge(ctx, gtr, gcases, "gated", "gated schedules")
-    conform(ctx, gtr, gcases, variant, "gated schedules")
+    add(gtr, gcases, "gated")
+
+    # ---- sequential call sequences (no gate holds; the loop runs freely) ---------------------------------------
+    ckinds = ["start", "stopTW", "stopFW", "stopTN", "wait"]
+    cseqs = [c for n in range(1, (3 if quick else 4) + 1) for c in itertools.product(ckinds, repeat=n)]
+    res = pool.map(_calls_chunk, chunks(cseqs, len(cseqs) // (3 * nproc) + 1))
+    ctr = [t for ch in res for t in ch]
+    ccases = [{"family": "calls", "calls": list(c)} for c in cseqs]
+    ctx.count(evaluations=len(ctr), nontrivial=sum(1 for c in cseqs if "start" in c and c.index("start") < len(c) - 1))
+    ctx.extra["call_sequences"] = len(cseqs)
+    add(ctr, ccases, "calls")
 
     # ---- free-running threads --------------------------------------------------------------------
     nfree = 240 if quick else 2400
@@ -886,8 +914,10 @@ def _run(ctx, pool):
     ctx.extra["free_traces"] = len(ftr)
     ctx.extra["free_events_mean"] = round(sum(len(t) for t in ftr) / max(1, len(ftr)), 1)
     ctx.sample({"free_seed": seeds[0], "trace_head": ftr[0][:30]})
-    judge(ctx, ftr, fcases, "free", "free-running threads")
-    conform(ctx, ftr, fcases, variant, "free-running threads")
+    add(ftr, fcases, "free")
+    judge(ctx, A["tr"], A["cases"], A["fam"], "all recorded Runnable traces (exemplars, backoff, gated, free)")
+    conform(ctx, [A["tr"][i] for i in A["conf"]], [A["cases"][i] for i in A["conf"]], variant,
+            "backoff slice + gated + free traces")
 
     # ---- notifications ---------------------------------------------------------------------------
     for threaded, maxn in ((False, 4 if quick else 5), (True, 5)):
@@ -909,7 +939,9 @@ def _run(ctx, pool):
                                  and any((t["k"] == "n" and t["f"]) or t["k"] == "s" for t in h)))
         ctx.extra["notifier_histories_%s" % ("threaded" if threaded else "direct")] = len(hists)
         ctx.sample({"notifier": ncases[len(ncases) // 2], "trace": ntr[len(ncases) // 2]})
-        judge_notifier(ctx, ntr, ncases, "notification histories threaded=%s" % threaded)
+        NT += ntr
+        NC += ncases
+    judge_notifier(ctx, NT, NC, "notification histories (direct and threaded)")
     ctx.cov["exhaustive"] = True
 
     # ---- design-level results --------------------------------------------------------------------
